@@ -114,11 +114,29 @@ def E_FWD(ctx, facts, only=None, min_count=None):
     return n
 
 
+def lazy_handshake_fn(facts, self_ty):
+    """The `handshake(cx, action)` helper of a lazy-handshake TLS stream, found by what it is - the one inherent method of the
+    stream type that invokes a caller-supplied action (FnOnce::call_once) - not by its name."""
+    out = []
+    for g in facts.fns.values():
+        d = g.d
+        if d.get("impl_trait") or "impl_self" not in d:
+            continue
+        st = norm(d["impl_self"])
+        if not (st == self_ty or st.endswith("::" + self_ty)):
+            continue
+        if any(norm(c.decl or c.name).endswith("FnOnce::call_once") for c in g.calls()):
+            out.append(g)
+    if len(out) != 1:
+        raise KeyError("lazy-handshake helper of %s: %d candidates %s" % (self_ty, len(out), [g.nkey for g in out]))
+    return out[0]
+
+
 def fwd_tls_stream(ctx, facts, self_ty, state_adt, label):
     """Exception rule for the lazy-handshake TLS streams: read/write go through handshake(cx, closure) whose closure
     forwards the same operation; flush/shutdown answer Ready(Ok) only while still in the Handshake state."""
     from core import arms, closure_arg_of
-    hs = facts.fn(self_ty + "::handshake")
+    hs = lazy_handshake_fn(facts, self_ty)
     ctx.touched(hs)
     n = 0
     for f in io_methods(facts):
@@ -129,7 +147,7 @@ def fwd_tls_stream(ctx, facts, self_ty, state_adt, label):
         key = "%s::%s" % (label, nm)
         if nm in ("poll_read", "poll_write", "poll_write_vectored"):
             n += 1
-            hc = [c for c in f.calls() if c.res == hs.key or norm(c.name).endswith(self_ty + "::handshake")]
+            hc = [c for c in f.calls() if c.res == hs.key]
             if len(hc) != 1:
                 ctx.bad(key + "|via-handshake", "%s does not go through handshake() exactly once (%d calls)" % (nm, len(hc)), f.where())
                 continue
